@@ -15,7 +15,7 @@ import shutil
 import tempfile
 
 from .. import gen, sergen
-from ..core import CaseTimeout, case_deadline, rng_for, short_tb
+from ..core import CaseTimeout, case_deadline, rng_for, short_tb, note_exc
 
 PROP = "C05"
 LEVEL = "exploration"
@@ -121,7 +121,7 @@ def run_case(case, res):
     except CaseTimeout:
         res.inconc("case watchdog fired")
     except Exception:
-        bad.append("harness/exception: " + short_tb())
+        note_exc(res, bad, "exception escaped from the library: ")
     finally:
         shutil.rmtree(tmp, ignore_errors=True)
     if bad:
